@@ -37,8 +37,7 @@ Qed.
 Record same_frame (w w' : writer) : Prop := mkFrame {
   fr_enabled : w_enabled w' = w_enabled w;
   fr_keyed : w_keyed w' = w_keyed w;
-  fr_qos : w_qos w' = w_qos w;
-  fr_proxies : w_proxies w' = w_proxies w
+  fr_qos : w_qos w' = w_qos w
 }.
 Lemma same_frame_refl w : same_frame w w.
 Proof. now constructor. Qed.
@@ -117,7 +116,7 @@ Lemma hsame_trans a b c : hsame a b -> hsame b c -> hsame a c.
 Proof. intros H1 H2 x. now rewrite H2, H1. Qed.
 
 Lemma hof_frame w w' k : same_frame w w' -> hof w' k = hof w k.
-Proof. intros [_ Hk _ _]. unfold hof. now rewrite Hk. Qed.
+Proof. intros [_ Hk _]. unfold hof. now rewrite Hk. Qed.
 
 Lemma smallest_full_has d h l sn : smallest_full d h l = Some sn -> has_inst h l = true.
 Proof.
@@ -272,7 +271,7 @@ Proof.
   assert (S02 : hsame w w2) by (intros x; now rewrite I2, I1).
   repeat split.
   - destruct F1, F2, F3; congruence. - destruct F1, F2, F3; congruence.
-  - destruct F1, F2, F3; congruence. - destruct F1, F2, F3; congruence.
+  - destruct F1, F2, F3; congruence.
   - eapply hsame_trans; eauto.
   - intros p Hq. destruct P3 as [P3|P3]; [|congruence].
     rewrite (hof_frame _ _ _ F3). rewrite S3. apply Hp2. congruence.
